@@ -13,19 +13,25 @@ EXTENDS ITS, Json, IOUtils
 Cases == ndJsonDeserialize(IOEnv.CASES)
 
 Diff(G, H) == [u \in 1..G.n |-> [v \in 1..G.n |-> G.adj[u][v] - H.adj[u][v]]]
+(* ignore_aromaticity: a difference of less than one bond order (orders are in half units here) is reported as 0;
+   the (before, after) pair itself and the decomposition are unaffected *)
+DiffIA(G, H) == [u \in 1..G.n |-> [v \in 1..G.n |->
+                   LET d == G.adj[u][v] - H.adj[u][v] IN IF d > -2 /\ d < 2 THEN 0 ELSE d]]
 
-ItsClauses(tag, G, H, its, dG, dH) ==
+ItsClausesIA(tag, G, H, its, dG, dH, ia) ==
    << <<tag \o ":its-node-set-is-not-the-union", its.n = G.n /\ its.extra_nodes = 0>>,
       <<tag \o ":its-node-labels", its.tG = G.t /\ its.tH = H.t>>,
       <<tag \o ":its-bonds-are-not-the-union-with-order-pairs", its.oG = G.adj /\ its.oH = H.adj>>,
-      <<tag \o ":its-order-difference", its.std = Diff(G, H)>>,
+      <<tag \o ":its-order-difference", its.std = (IF ia THEN DiffIA(G, H) ELSE Diff(G, H))>>,
       <<tag \o ":decomposition-reactant-side", SameMol(dG, G) /\ \A v \in 1..G.n : dG.present[v] = 1>>,
       <<tag \o ":decomposition-product-side", SameMol(dH, H) /\ \A v \in 1..H.n : dH.present[v] = 1>> >>
+
+ItsClauses(tag, G, H, its, dG, dH) == ItsClausesIA(tag, G, H, its, dG, dH, FALSE)
 
 RECURSIVE RunClauses(_, _, _, _)
 RunClauses(G, H, runs, k) ==
    IF k > Len(runs) THEN <<>>
-   ELSE ItsClauses(runs[k].cfg, G, H, runs[k].its, runs[k].dG, runs[k].dH) \o RunClauses(G, H, runs, k + 1)
+   ELSE ItsClausesIA(runs[k].cfg, G, H, runs[k].its, runs[k].dG, runs[k].dH, runs[k].ignore_arom) \o RunClauses(G, H, runs, k + 1)
 
 Verdict(c) ==
    IF ~WellFormedM(c.G) \/ ~WellFormedM(c.H) THEN "MACHINERY:malformed-input-graph"
